@@ -347,3 +347,50 @@ func VerifC13_SpecialModes() {
 	verifSameNames(w.names, files)
 	vCover("archive-validated")
 }
+
+// verifLimitWriter accepts the first n bytes and then fails like a full disk or a closed pipe.
+type verifLimitWriter struct {
+	buf bytes.Buffer
+	n   int
+}
+
+func (w *verifLimitWriter) Write(p []byte) (int, error) {
+	room := w.n - w.buf.Len()
+	if room >= len(p) {
+		return w.buf.Write(p)
+	}
+	if room > 0 {
+		w.buf.Write(p[:room])
+	} else {
+		room = 0
+	}
+	return room, os.ErrClosed
+}
+
+// VerifC13_WriteFault: the destination of Tar fails after a solver-chosen number of bytes
+// (inside the first entry, between elements, inside the payload, inside or right before the
+// closing goodbye tables): Tar reports the failure - a nil result means the complete,
+// well-formed archive was written.
+func VerifC13_WriteFault() {
+	files := func() []*File {
+		return []*File{
+			{Name: ".", Path: ".", Mode: os.ModeDir | 0755, ModTime: time.Unix(0, 5)},
+			{Name: "a", Path: "a", Mode: 0644, Size: 2, ModTime: time.Unix(0, 5), Data: io.NopCloser(bytes.NewReader([]byte("hi")))},
+			{Name: "l", Path: "l", Mode: os.ModeSymlink | 0777, ModTime: time.Unix(0, 5), LinkTarget: "a"},
+		}
+	}
+	var full bytes.Buffer
+	vAssert(Tar(context.Background(), &full, &verifTreeReader{files: files()}) == nil, "Tar failed")
+	total := full.Len()
+	cuts := []int{0, 1, 16, 63, 64, 65, 100, total - 41, total - 40, total - 1, total}
+	cut := cuts[vChoose("bytes-accepted", len(cuts))]
+	w := &verifLimitWriter{n: cut}
+	err := Tar(context.Background(), w, &verifTreeReader{files: files()})
+	vCover("tar-returned")
+	if err == nil {
+		vAssert(bytes.Equal(w.buf.Bytes(), full.Bytes()), "Tar reported success but the destination does not hold the complete archive (write error lost?)")
+	}
+	if cut < total {
+		vAssert(err != nil, "Tar reported success although the destination refused part of the archive")
+	}
+}
